@@ -9,6 +9,7 @@ import FeatModel.Lemmas.C18_perm
 import FeatModel.Lemmas.C18_permT
 import FeatModel.Lemmas.C18_spd
 import FeatModel.Lemmas.C18_stride
+import FeatModel.Lemmas.C18_global
 import Mathlib.Tactic.IntervalCases
 /-! # C18 — property theorems (statements only; proofs live in Lemmas/C18_*.lean)
 
@@ -152,6 +153,58 @@ theorem C18.transfer_is_matrix_product (P T : FeatModel.LA.Csr Rat) (hP : P.vali
     (∃ xt, (Transfer.ofProl P T).applyTrunc yf vc0 = some xt ∧
         ∀ j, j < P.cols → xt.getD j 0 = ∑ i ∈ range P.rows, T.entry j i * yf.getD i 0) :=
   C18L.transfer_products P T hP hT hTr hTc xc vf0 yf vc0 hxc hvf hyf hvc
+
+/-! ### `Global::Transfer` (kernel/global/transfer.hpp)
+
+`GTransfer` models the members of `Global::Transfer` for one parent group (parent process + its children, each with
+its `LAFEM::Transfer`); muxer join/split and the gate sync are C13's models.  The driver executes it for every `gxfer`
+and `fe` case in three set-ups: no muxer, a muxer that is not a child, and the single-process muxer that is child and
+parent at once (the muxed branch). -/
+
+/-- un-muxed branch (`_coarse_muxer == nullptr` or `!is_child()`): `rest` applies the stored *restriction* matrix,
+`trunc` the stored *truncation* matrix, `prol` the stored *prolongation* matrix of the local transfer; the gate sync of
+a gate without neighbours is the identity -/
+theorem C18.global_transfer_unmuxed (g : GTransfer) (h : g.muxed = false) (fines tmps fines0 : List (Array Rat))
+    (coarse0 coarse : Array Rat) :
+    g.rest fines tmps coarse0 = (g.locals.getD 0 default).applyRest (fines.getD 0 #[]) coarse0 ∧
+    g.trunc fines tmps coarse0 = (g.locals.getD 0 default).applyTrunc (fines.getD 0 #[]) coarse0 ∧
+    g.prol fines0 tmps coarse = ((g.locals.getD 0 default).applyProl (fines0.getD 0 #[]) coarse).map fun v => [v] :=
+  C18L.global_unmuxed g h fines tmps fines0 coarse0 coarse
+
+/-- muxed branch with `k` processes: `rest`/`trunc` = `join ∘ local rest/trunc (into _vec_tmp)`,
+`prol` = `local prol (from _vec_tmp) ∘ split`; for more than one process join/split are C13's `muxJoin`/`muxSplit` -/
+theorem C18.global_transfer_muxed_group (g : GTransfer) (m : MuxerM) (hm : g.muxer = some m) (hc : m.isChild = true)
+    (hp : m.isParent = true) (w : Which) (fines tmps fines0 : List (Array Rat)) (coarse0 coarse : Array Rat) :
+    g.down w fines tmps coarse0
+      = ((List.range g.locals.length).mapM fun c =>
+          applyWhich w (g.locals.getD c default) (fines.getD c #[]) (tmps.getD c #[])).map
+          (fun parts => m.join parts coarse0) ∧
+    g.prol fines0 tmps coarse
+      = ((List.range g.locals.length).mapM fun c =>
+          (g.locals.getD c default).applyProl (fines0.getD c #[]) ((m.split coarse tmps).getD c #[])) ∧
+    (1 < m.commSize → ∀ parts, m.join parts coarse0
+      = (FeatModel.Dist.muxJoin m.B m.pm m.cm (parts.map fun s => FeatModel.Dist.CVec.leaf 1 s.toList)
+          (FeatModel.Dist.CVec.leaf 1 coarse0.toList)).flat.toArray) ∧
+    (1 < m.commSize → m.split coarse tmps
+      = (FeatModel.Dist.muxSplit m.B m.pm m.cm (FeatModel.Dist.CVec.leaf 1 coarse.toList)
+          (tmps.map fun s => FeatModel.Dist.CVec.leaf 1 s.toList)).map fun v => v.flat.toArray) :=
+  C18L.global_muxed_group g m hm hc hp w fines tmps fines0 coarse0 coarse
+
+/-- **global_transfer_eq_local**: for the un-muxed object and for the single-process muxed object (child and parent at
+once) `prol`, `rest`, `trunc` never abort on matching sizes and are the products with `P`, `Pᵀ`, `T` — the same as
+`LAFEM::Transfer` (`C18.transfer_is_matrix_product`) -/
+theorem C18.global_transfer_eq_local (P T : FeatModel.LA.Csr Rat) (hP : P.valid = true) (hT : T.valid = true)
+    (hTr : T.rows = P.cols) (hTc : T.cols = P.rows) (mux : Option MuxerM)
+    (hmux : mux = none ∨ ∃ m, mux = some m ∧ (m.isChild = false ∨ (m.commSize = 1 ∧ m.isParent = true)))
+    (xc fine0 yf coarse0 tmp : Array Rat) (hxc : xc.size = P.cols) (hf0 : fine0.size = P.rows)
+    (hyf : yf.size = P.rows) (hc0 : coarse0.size = P.cols) (htmp : tmp.size = P.cols) :
+    (∃ xp, (GTransfer.mk mux [Transfer.ofProl P T]).prol [fine0] [tmp] xc = some [xp] ∧
+        ∀ i, i < P.rows → xp.getD i 0 = ∑ j ∈ range P.cols, P.entry i j * xc.getD j 0) ∧
+    (∃ xr, (GTransfer.mk mux [Transfer.ofProl P T]).rest [yf] [tmp] coarse0 = some xr ∧
+        ∀ j, j < P.cols → xr.getD j 0 = ∑ i ∈ range P.rows, P.entry i j * yf.getD i 0) ∧
+    (∃ xt, (GTransfer.mk mux [Transfer.ofProl P T]).trunc [yf] [tmp] coarse0 = some xt ∧
+        ∀ j, j < P.cols → xt.getD j 0 = ∑ i ∈ range P.rows, T.entry j i * yf.getD i 0) :=
+  C18L.global_transfer_products P T hP hT hTr hTc mux hmux xc fine0 yf coarse0 tmp hxc hf0 hyf hc0 htmp
 
 /-! ### mesh permutation states
 
